@@ -81,6 +81,9 @@ def run_real(case):
         box = {}
 
         def emits():
+            import asyncio
+            own = asyncio.new_event_loop()      # like a main thread: a current loop exists
+            asyncio.set_event_loop(own)
             try:
                 for idx, e in enumerate(case["events"]):
                     box["at"] = idx
@@ -90,6 +93,9 @@ def run_real(case):
                         b.nodes[e[1]].flush()
             except BaseException as ex:  # noqa: BLE001  (re-raised on the main thread)
                 box["exc"] = ex
+            finally:
+                asyncio.set_event_loop(None)
+                own.close()
         import threading
         th = threading.Thread(target=emits, daemon=True)
         th.start()
